@@ -14,7 +14,8 @@ for p in sorted(glob.glob(os.path.join(os.path.dirname(__file__), "..", "seeded"
         first = (c.get("first_violation") or "").strip()
         sig = first.split(" in ")[0].replace("violation ", "") if first else ""
         chk.append(f"`{c['check']}` " + ("**caught** (" + sig.replace("|", " / ") + ")" if c["exit"] == 1 else "silent"))
-    note = m.get("strengthened", "")
+    note = " ".join(x for x in (m.get("strengthened", ""), m.get("rebased", ""),
+                                ("RETIRED: " + m["retired"]) if m.get("retired") else "") if x)
     rows.append(f"| {name} | {summ} | {'; '.join(chk)} | {note} |")
 print("| change | what it does (author's summary, shortened) | quick checks run against it | strengthened? |")
 print("|---|---|---|---|")
@@ -30,7 +31,7 @@ for p in sorted(glob.glob(os.path.join(os.path.dirname(__file__), "..", "seeded"
     summ = (m.get("summary") or "").replace("|", "/").replace("\n", " ")
     summ = summ[:260] + ("…" if len(summ) > 260 else "")
     loud = [c["check"] for c in m.get("checks", []) if c["exit"] != 0 or c.get("errors") not in ("0", 0)]
-    rf.append(f"| {name} | {m.get('file', '')} | {summ} | {'all ' + str(len(m.get('checks', []))) + ' checks silent' if not loud else 'NOT silent: ' + ', '.join(loud)} | {m.get('note', '')} |")
+    rf.append(f"| {name} | {m.get('file', '')} | {summ} | {'all ' + str(len(m.get('checks', []))) + ' checks silent' if not loud else 'NOT silent: ' + ', '.join(loud)} | {' '.join(x for x in (m.get('note', ''), ('RETIRED: ' + m['retired']) if m.get('retired') else '') if x)} |")
 if rf:
     print()
     print("| refactoring | file(s) | what was restructured (author's summary, shortened) | checks | note |")
